@@ -246,6 +246,7 @@ func run(c *rig.Ctx) {
 	pairs(c)
 	fileWriters(c)
 	ramStores(c)
+	protocolStreams(c)
 
 	// (5) wiring through gameboy.New
 	c.Part("wiring", c.N(24, 180), func(i int64, r *rig.Rng) {
